@@ -623,6 +623,142 @@ theorem unitNE_of_lex (rp : RawPosting) (h : RawPostingLex rp) : UnitNE rp.unit 
   obtain ⟨huid, _, hcl⟩ := h.unit u hu
   exact ⟨identWF_ne_empty _ huid, fun v hv => identWF_ne_empty _ (hcl v hv).1⟩
 
+/-! ## what the grammar stores is well-formed (the fields the property names)
+
+`RawLex` of the parser's output is not proved in full (it is the inverse direction of every per-parser
+lemma, and its timestamp part is the calendar inverse law); these are the parts the property statement
+mentions: numbers, trimmed code, right-trimmed description, one-line comments. -/
+
+theorem trimEnd_idem : ∀ l : List Char, trimEnd (trimEnd l) = trimEnd l := by
+  intro l
+  induction l with
+  | nil => rfl
+  | cons c t ih =>
+    simp only [trimEnd]
+    cases h : trimEnd t with
+    | nil =>
+      simp only []
+      split
+      · rfl
+      · rename_i hc; simp [trimEnd, hc]
+    | cons d r =>
+      simp only []
+      rw [h] at ih
+      show (match trimEnd (d :: r) with
+        | [] => if isWhitespace c = true then [] else [c]
+        | d' :: r' => c :: d' :: r') = c :: d :: r
+      rw [ih]
+
+theorem trimEnd_head (c : Char) (t : List Char) (hc : isWhitespace c = false) :
+    ∃ r, trimEnd (c :: t) = c :: r := by
+  simp only [trimEnd]
+  cases trimEnd t with
+  | nil => simp [hc]
+  | cons d r => exact ⟨d :: r, rfl⟩
+
+theorem trimEnd_sub : ∀ (l : List Char), ∀ c ∈ trimEnd l, c ∈ l := by
+  intro l
+  induction l with
+  | nil => intro c hc; simp [trimEnd] at hc
+  | cons d t ih =>
+    intro c hc
+    simp only [trimEnd] at hc
+    cases h : trimEnd t with
+    | nil =>
+      rw [h] at hc
+      simp only [] at hc
+      split at hc
+      · cases hc
+      · simp at hc; subst hc; exact List.mem_cons_self
+    | cons e r =>
+      rw [h] at hc
+      simp only [] at hc
+      rcases List.mem_cons.mp hc with rfl | hc'
+      · exact List.mem_cons_self
+      · exact List.mem_cons_of_mem _ (ih c (by rw [h]; exact hc'))
+
+theorem trim_idem (l : List Char) : trim (trim l) = trim l := by
+  unfold trim trimStart
+  cases h : l.dropWhile isWhitespace with
+  | nil => rfl
+  | cons c t =>
+    have hc : isWhitespace c = false := by
+      have := List.head_dropWhile_not isWhitespace (l := l) (by rw [h]; simp)
+      simpa [h] using this
+    obtain ⟨r, hr⟩ := trimEnd_head c t hc
+    rw [hr]
+    simp only [List.dropWhile, hc]
+    rw [← hr, trimEnd_idem]
+
+theorem trim_sub (l : List Char) : ∀ c ∈ trim l, c ∈ l := by
+  intro c hc
+  unfold trim trimStart at hc
+  have := trimEnd_sub _ c hc
+  exact (List.dropWhile_suffix _).subset this
+
+/-- what `p_number` yields is a well-formed number -/
+theorem pNumber_ok_wf (s r : List Char) (d : Dec) (h : pNumber s = .ok d r) : NumWF d := by
+  unfold pNumber at h
+  obtain ⟨t, s', _, h2⟩ := (Res.bind_ok _ _ _ _).mp h
+  split at h2
+  · rename_i d' hd
+    cases h2
+    have hwf := C01.ofToken_wf _ _ _ _ hd
+    refine ⟨hwf.1, hwf.2, ?_⟩
+    unfold Dec.ofToken at hd
+    simp only at hd
+    split at hd
+    · cases hd
+    · split at hd
+      · cases hd
+      · cases hd
+        intro hn
+        simp at hn
+        simpa using hn.2
+  · cases h2
+
+/-- the code the grammar stores is trimmed and consists of valid code characters -/
+theorem parseTxnCode_ok_wf (s r : List Char) (c : String) (h : parseTxnCode s = .ok c r) :
+    (∀ d ∈ c.toList, validCodeChar d = true) ∧ trim c.toList = c.toList := by
+  unfold parseTxnCode at h
+  obtain ⟨_, s1, _, h1⟩ := (Res.bind_ok _ _ _ _).mp h
+  obtain ⟨x, s2, hx, h2⟩ := (Res.bind_ok _ _ _ _).mp h1
+  obtain ⟨_, s3, _, h3⟩ := (Res.bind_ok _ _ _ _).mp h2
+  cases h3
+  obtain ⟨_, hall, _⟩ := takeWhile0_ok _ _ _ _ hx
+  simp only [String.toList_ofList]
+  exact ⟨fun d hd => hall d (trim_sub x d hd), trim_idem x⟩
+
+/-- the description the grammar stores fits on a line and has no trailing white space -/
+theorem parseTxnDescription_ok_wf (s r : List Char) (d : String) (h : parseTxnDescription s = .ok d r) :
+    LineText d.toList ∧ trimEnd d.toList = d.toList := by
+  unfold parseTxnDescription at h
+  obtain ⟨_, s1, _, h1⟩ := (Res.bind_ok _ _ _ _).mp h
+  obtain ⟨x, s2, hx, h2⟩ := (Res.bind_ok _ _ _ _).mp h1
+  cases h2
+  obtain ⟨_, hall, _⟩ := tillLineEnding_ok _ _ _ hx
+  simp only [String.toList_ofList]
+  exact ⟨fun c hc => hall c (trimEnd_sub x c hc), trimEnd_idem x⟩
+
+/-- a comment the grammar stores fits on a line -/
+theorem pComment_ok_wf (s r c : List Char) (h : pComment s = .ok c r) : LineText c := by
+  unfold pComment at h
+  obtain ⟨_, s1, _, h1⟩ := (Res.bind_ok _ _ _ _).mp h
+  unfold cutErr alt at h1
+  split at h1
+  · rename_i a r' hh
+    cases h1
+    split at hh
+    · rename_i a' r'' h2
+      cases hh
+      obtain ⟨_, _, rfl⟩ := (Res.map_ok _ _ _ _).mp h2
+      intro c hc; cases hc
+    · obtain ⟨_, s2, _, h3⟩ := (Res.bind_ok _ _ _ _).mp hh
+      exact (tillLineEnding_ok _ _ _ h3).2.1
+    · cases hh
+  · cases h1
+  · cases h1
+
 /-! ## composition -/
 
 /-- **C06 `roundtrip_layout`.**  Take the transactions a journal was accepted to, print them (in acceptance
